@@ -40,6 +40,7 @@ func c04Src(tier string) *SrcCfg {
 			{[]string{"1/2", "1/2"}, 0},
 			{[]string{"1/3", "remaining"}, 0},
 			{[]string{"$p", "remaining"}, 1},
+			{[]string{"1/3", "1/3", "1/3"}, 1}, // a leftover of two units to hand out one by one
 		},
 		ListLens:   cat(ws(0, "2"), ws(1, "1", "3", "0")),
 		WOverdraft: 1, WUnbounded: 1, WVar: 1, WInorder: 1, WCapped: 1, WAllot: 2,
